@@ -36,6 +36,14 @@ for arg in sys.argv[1:]:
         if only and not any(o in r["name"] for o in only.split(",")):
             continue
         r["run_at"] = label
+        old = cur.get(r["name"])
+        if old is not None and r.get("tests_passed") == -1 and old.get("tests_passed", -1) != -1:
+            # the run skipped the baseline tests: keep the earlier validation of the same patch
+            for k in ("valid", "tests_passed", "tests_failed", "why"):
+                if k in old:
+                    r[k] = old[k]
+            if not r["valid"]:
+                r["checks"] = {}
         cur[r["name"]] = r
 # drop entries whose patch is gone
 keep = {}
